@@ -260,12 +260,46 @@ def hNpsdCert : Handler := fun j => do
   if A.c != n || x.r != n || x.c != 1 then return reject "Shape"
   return Json.mkObj [("ok", Json.bool (npsdCert (toEMat A n n) (toEMat x n 1) mu))]
 
+/-- `{"V":mat d×n, "W":mat n×d}` : verified left inverse -/
+def hLinIndepCert : Handler := fun j => do
+  let V ← getMat j "V"
+  let W ← getMat j "W"
+  if W.r != V.c || W.c != V.r then return reject "Shape"
+  return Json.mkObj [("ok", Json.bool (linIndepCert (toEMat V V.r V.c) (toEMat W V.c V.r)))]
+
+/-- `{"V":mat d×n, "c":mat n×1}` : verified non-trivial null vector -/
+def hLinDepCert : Handler := fun j => do
+  let V ← getMat j "V"
+  let c ← getMat j "c"
+  if c.r != V.c || c.c != 1 then return reject "Shape"
+  return Json.mkObj [("ok", Json.bool (linDepCert (toEMat V V.r V.c) (toEMat c V.c 1)))]
+
+/-- `{"dim":n, "gens":[mat…], "P":…, "Q":…, "N":…, "M":…}` : verified rank / nullity of the linear system
+    that `commutant` solves (built here from the generators); answers the certified nullity -/
+def hCommutantCert : Handler := fun j => do
+  let dim ← getNat j "dim"
+  let gens ← getMatList j "gens"
+  if gens.any (fun A => A.r != dim || A.c != dim) then return reject "Shape"
+  let P ← getMat j "P"
+  let Q ← getMat j "Q"
+  let N ← getMat j "N"
+  let M ← getMat j "M"
+  let R := gens.length * dim * dim
+  let C := dim * dim
+  let r := P.r
+  let k := N.c
+  if P.c != R || Q.r != C || Q.c != r || N.r != C || M.r != k || M.c != C then return reject "Shape"
+  let S := qmatToEMat (commStack dim gens) R C
+  let ok := rankCert S (toEMat P r R) (toEMat Q C r) (toEMat N C k) (toEMat M k C)
+  return Json.mkObj [("ok", Json.bool ok), ("nullity", Json.num k), ("rank", Json.num r)]
+
 def handlers : List (String × Handler) :=
   [("c16_vec", hVec), ("c16_unvec", hUnvec), ("c16_tensor", hTensor), ("c16_kron_pow", hKronPow),
    ("c16_mul", hMul), ("c16_gram", hGram), ("c16_to_density", hToDensity), ("c16_calc_dim", hCalcDim),
    ("c16_same_dim", hSameDim), ("c16_majorizes", hMajorizes), ("c16_rank", hRank), ("c16_spark", hSpark),
    ("c16_commutant_dim", hCommutantDim), ("c16_pred", hPred), ("c16_list_pred", hListPred),
    ("c16_set_pred", hSetPred), ("c16_mub", hMub), ("c16_upb", hUpb),
-   ("c16_psd_cert", hPsdCert), ("c16_npsd_cert", hNpsdCert)]
+   ("c16_psd_cert", hPsdCert), ("c16_npsd_cert", hNpsdCert),
+   ("c16_linindep_cert", hLinIndepCert), ("c16_lindep_cert", hLinDepCert), ("c16_commutant_cert", hCommutantCert)]
 
 end Toq.Driver.C16
